@@ -6,7 +6,7 @@ RULE = ('registry layer: effective tables (keys in order, method identities) and
         'Model/Construct.v vs load_all with SafeLoader and BaseLoader (type-strict graphs, identity, outcome class). Direct on the implementation, each of SafeLoader, CSafeLoader, '
         'BaseLoader, CBaseLoader under sys.addaudithook(import) + sys.setprofile (python-level calls outside yaml/re/base64/datetime/codecs, C calls into foreign modules, forbidden '
         'builtins) + sys.modules snapshot: documents carrying every registered tag and multi-constructor prefix of every shipped class, mutated and random tags, python/* forms with '
-        'dotted names, on scalar/sequence/mapping nodes, as keys, under aliases and merge keys; result must be a YAML error or plain data; non-core tags must be rejected. '
+        'dotted names, on scalar/sequence/mapping nodes, as keys, under aliases and merge keys, a third of them after the same document was loaded by FullLoader/CFullLoader in the same interpreter (history probe for state shared between loader classes); result must be a YAML error or plain data; non-core tags must be rejected. '
         'non-trivial = document has at least one explicit tag or is non-empty; distinct by (loader, text)')
 
 NAMES = ['os.system', 'os.path', 'subprocess.Popen', 'builtins.eval', 'eval', 'sys.exit', 'json.dumps', 'collections.OrderedDict', 'yaml.Loader', 'nonexistent.mod', 'xml.dom', 'int', 'object', 'datetime.datetime', '', 'os', 'a.b.c']
@@ -47,6 +47,8 @@ def run(ctx):
     ctx.regen(); ctx.prove()
     from tools.props import c10
     c10.check_histories(ctx, [[]])
+    corr.dispatch(ctx, ctx.n(800, 8000))
+    ctx.notes.append('dispatch tie: ' + str((ctx.gen_meta.get('calls') or {}).get('dispatch_tie')))
     corr.load(ctx, ctx.n(2000, 20000), loaders=('safe', 'base'))
     tags = tag_vocabulary(ctx)
     docs = tagged_docs(ctx, tags, ctx.n(2500, 25000)) + corr.load_texts(ctx, ctx.n(800, 8000))
@@ -54,9 +56,9 @@ def run(ctx):
     for t in docs:
         for L in ('SafeLoader', 'CSafeLoader', 'BaseLoader', 'CBaseLoader'):
             if L.startswith('C') and ctx.rng.random() < 0.5 and ctx.quick(): continue
-            cases.append([t, L])
+            cases.append([t, L, ctx.rng.choice([None, None, None, 'FullLoader', 'CFullLoader'])])
     ctx.rng.shuffle(cases)      # every worker interleaves the four loader classes in random order: state shared between classes shows up as a history effect
-    corr.direct(ctx, 'c01', cases, describe=lambda c: dict(text=c[0], loader=c[1]), label='confined')
+    corr.direct(ctx, 'c01', cases, describe=lambda c: dict(text=c[0], loader=c[1], warm=c[2]), label='confined')
     ctx.partial = [dict(theorem='safe_construct_plain / unknown_tag_rejected (every nesting)', missing='not proved over the constructor model; decided by the construct correspondence and the direct run under audit/profile hooks')]
     ctx.refuted = [dict(theorem='safe_only_yaml_errors (FULL)', witness='!!int abc -> ValueError (known finding F-explicit-tag-unsuitable-payload)')]
     return ctx.finish(assumptions=['the LibYAML parser half of CSafeLoader/CBaseLoader is observed, not modelled; the constructor half is the Python code covered by the theorems'])
@@ -67,7 +69,7 @@ def replay(ctx, path):
     c = d.get('case', {})
     if 'text' in c:
         corr.load(ctx, 0, texts=[c['text']], loaders=('safe', 'base'))
-        corr.direct(ctx, 'c01', [[c['text'], c.get('loader', 'SafeLoader')]], describe=lambda c: dict(text=c[0], loader=c[1]))
+        corr.direct(ctx, 'c01', [[c['text'], c.get('loader', 'SafeLoader'), c.get('warm')]], describe=lambda c: dict(text=c[0], loader=c[1], warm=c[2]))
     if 'history' in c:
         from tools.props import c10
         c10.check_histories(ctx, [c['history']])
